@@ -75,6 +75,7 @@ def check(ctx):
     ctx.attempt(_chain_language)
     ctx.attempt(common.config_words, plss=('qq_depth', 'qq_depth_min', 'qq_depth_max', 'break_halves'), tract=('qq_depth', 'qq_depth_min', 'qq_depth_max', 'break_halves'))
     ctx.attempt(_snapshot_is_not_worked_on)
+    ctx.attempt(_blocks_reach_parse_aliquot_in_its_case)
 
 
 def _tables(ctx):
@@ -634,3 +635,55 @@ def _snapshot_is_not_worked_on(ctx):
                             where=common.loc(fi, c))
     if n == 0:
         ctx.ok('FIXPOINT', f"{fi.qualname}: the snapshot of the fixed-point loop is only compared", 'not handed to any helper')
+
+
+def _blocks_reach_parse_aliquot_in_its_case(ctx):
+    """TractParser hands text blocks to parse_aliquot(), whose tokenizer
+    (single_aliquot_unpacker_regex) is case-SENSITIVE.  A block taken from the
+    match of a case-INSENSITIVE pattern (`all_regex`: 'All', 'all') must be
+    replaced by the canonical constant or upper-cased first - otherwise the
+    tokenizer finds nothing and the whole section yields no pieces."""
+    import re as _re
+    from ..fold import RegexVal
+    fi = ctx.repo.func('TractParser.parse')
+    try:
+        tok = ctx.fold.get('rgxlib.aliquots', 'single_aliquot_unpacker_regex')
+    except AnalysisError:
+        ctx.undecided('RX-FLAGS', 'blocks reach parse_aliquot in the case its tokenizer reads', 'tokenizer pattern not folded')
+        return
+    if tok.flags & _re.I:
+        ctx.ok('RX-FLAGS', 'blocks reach parse_aliquot in the case its tokenizer reads', 'the tokenizer ignores case')
+        return
+    mvars = {}
+    for a in walk_local(fi.node):
+        if isinstance(a, ast.Assign) and len(a.targets) == 1 and isinstance(a.targets[0], ast.Name) and isinstance(a.value, ast.Call) \
+                and isinstance(a.value.func, ast.Attribute) and a.value.func.attr in ('search', 'match', 'fullmatch'):
+            try:
+                rv = common.fold_in_func(ctx, fi, a.value.func.value)
+            except AnalysisError:
+                continue
+            if isinstance(rv, RegexVal):
+                mvars[a.targets[0].id] = rv
+    # the list whose elements are handed to parse_aliquot() one by one
+    fed = {lp.iter.id for lp in walk_local(fi.node) if isinstance(lp, ast.For) and isinstance(lp.iter, ast.Name)
+           and isinstance(lp.target, ast.Name) and any(
+               isinstance(x, ast.Call) and (dotted(x.func) or '').split('.')[-1] == 'parse_aliquot' and x.args
+               and norm(x.args[0]) == lp.target.id for x in ast.walk(lp))}
+    n = 0
+    for c in walk_local(fi.node):
+        if not (isinstance(c, ast.Call) and isinstance(c.func, ast.Attribute) and c.func.attr == 'append'
+                and isinstance(c.func.value, ast.Name) and c.func.value.id in fed and c.args):
+            continue
+        pv = flow.provenance(fi.node, c.args[0])
+        calls = {x.split('.')[-1] for x in flow.prov_calls(pv)}
+        srcs = [rv for nm, rv in mvars.items() if any(
+            (at[0] == 'sub' and at[1].startswith(nm + '[')) or (at[0] == 'call' and at[1] in (f"{nm}.group", f"{nm}.groupdict")) for at in pv)]
+        n += 1
+        insensitive = [rv for rv in srcs if rv.flags & _re.I]
+        ctx.check(not insensitive or 'upper' in calls, 'RX-FLAGS',
+                  f"TractParser.parse: `{norm(c)[:50]}` hands parse_aliquot text in the case its tokenizer reads",
+                  detail_bad=f"`{norm(c)[:60]}` appends text matched by {insensitive[0].name if insensitive else ''} (IGNORECASE) as it was written; "
+                             f"parse_aliquot's tokenizer is case-sensitive: 'All' / 'all' is not recognised there and the whole "
+                             f"section comes back with no pieces (area 0)",
+                  key=f"RX-FLAGS|TractParser.parse|block-case|{norm(c.args[0])[:30]}", where=common.loc(fi, c))
+    return n
